@@ -169,7 +169,9 @@ ARRAY_RULE = ("every array of the corpus A (S1: all arrays of length 1-3 over a 
               "S4: every length 1..72/300 x (minimum class, spread at both ends of each byte class, stride, 0-2 outliers, "
               "order); S2f: lengths 301..4200 (thorough: every one); S2q: 65536 and the 67823|67824 tagged-count boundary; giant: "
               "1,048,577 elements (clustered with the minimum at an odd index; all distinct), thorough optimised builds also "
-              "3,000,000 and 16,777,215..16,777,217); S5: exactly 240/241/2287/2288/2289 nine-byte exceptions; constant-derived: "
+              "3,000,000 and 16,777,215..16,777,217); S5: exactly 240/241/2287/2288/2289 nine-byte exceptions; S6: all 65536 values with bytes from {00,01,80,FF} "
+              "(thorough; quick every 4th block of 256), once each / runs of 3 / ascending; S3 also: ascending with one displaced "
+              "element or a 2^64-1 sentinel at 4 positions x 8 lengths around 32 and 128; constant-derived: "
               "value pairs whose difference is a convergent denominator of K / 2^64 for every odd 64-bit immediate K of the "
               "library's machine code) through every codec entry point on the real code, each typed input at 2 (thorough: 3) start "
               "alignments (flush against the guard page, 1 and 3 elements earlier), in each build configuration "
@@ -210,8 +212,8 @@ CHECKS["C08"] = dict(
     configs={"quick": ["pinned", "asan"], "thorough": ["pinned", "asan", "debug", "native"]},
     shards={"pinned": 16, "asan": 16, "debug": 16, "native": 16},
     deadline={"quick": 150, "thorough": 2400},
-    rule="explicit-state breadth-first search over operation histories of two bitmap registers: alphabet of ~56 operations "
-         "(add/remove at both sides of 4096 and of 65535, ranges shorter and longer than 4096, bulk add, clear, clone, "
+    rule="explicit-state breadth-first search over operation histories of two bitmap registers: alphabet of ~60 operations "
+         "(add/remove at both sides of 4096 and of 65535, ranges shorter and longer than 4096 and of 65534 / 65535 / 65536 members, bulk add, clear, clone, "
          "register copy/swap, and/or/xor/andnot in both operand orders, serialise+deserialise), depth 3 (quick) / 4 "
          "(thorough), plus a complete small-universe scope {0..5} to depth 5/6 and a reduced alphabet to depth 5; plus the "
          "operand-shape product of the binary operations: a library of 23 sets of every container type and size class "
@@ -344,9 +346,10 @@ CHECKS["C18"] = dict(
     configs={"quick": ["pinned", "native"], "thorough": ["pinned", "debug", "native", "os", "c11"]},
     shards={"pinned": 16, "debug": 16},
     deadline={"quick": 150, "thorough": 2400},
-    rule="~215 scenarios (every allocating API of dictionary, patched frame-of-reference, float, adaptive and bitmap on inputs "
+    rule="~220 scenarios (every allocating API of dictionary, patched frame-of-reference, float, adaptive and bitmap on inputs "
          "chosen to reach every allocation site: <=16 and >16 dictionary entries, 0 and >0 PFOR exceptions, exact and sampled "
-         "uniqueness, dictionary rebuilds across index-width classes (prior 8/100/300 entries x new 5/40/300/~10000 distinct) with "
+         "uniqueness, > 10000 elements with every 10th equal and the others distinct 9-byte / 3-byte values (the sample selects "
+         "the dictionary whose encoding does / does not fit the adaptive bound), dictionary rebuilds across index-width classes (prior 8/100/300 entries x new 5/40/300/~10000 distinct) with "
          "the dictionary then used as it is, PFOR / adaptive inputs with exceptions plus in-range values equal to the 1- and 2-byte "
          "marker, the adaptive encoder writing into a destination of exactly varintAdaptiveMaxSize bytes before a guard page, "
          "every forced adaptive encoding and its decoder, bitmap create/clone/add/remove/ranges/bulk/decode on array, "
